@@ -11,7 +11,7 @@ ID = 'C14'
 LEVEL = 'exploration'
 RULE = ('Enumerated product: program kind (busy loop, loop that prints, loop swallowing Exception, loop swallowing '
         'BaseException silently / while printing, thread blocked on a lock, loop that writes to stdout through '
-        'sys.stdout.write) x entry point (run, call, evaluate) x schedule forced through the guarded sync points (caller '
+        'sys.stdout.write, import of a second student file that loops silently / while printing) x entry point (run, call, evaluate) x schedule forced through the guarded sync points (caller '
         'handler first; student handler first; student parked until the next execution is running; student never released) x '
         'follow-up operations (run/call/evaluate that print, read input and return values) x allowed_time in {0.1, 0.2}. Every '
         'case runs in a forked child with a watchdog. Oracle: the call returns within the limit + 30 s (only a hang fails; a zombie thread competing for the GIL makes everything slow); the exception is a '
@@ -73,18 +73,32 @@ def long_c_call():
 def writer():
     while True:
         sys.stdout.write('')
+def import_spin():
+    import looper
+def import_spin_print():
+    import looper_print
 def say(text):
     print(text)
     return len(text)
 def ask():
     return input('value?')
 '''
-KINDS = ['spin', 'spin_print', 'swallow_exception', 'swallow_base', 'swallow_base_print', 'block_on_lock', 'writer']
+# the student's second files, imported by import_spin / import_spin_print (threaded imports run in a nested timeout thread)
+EXTRA_FILES = {'looper.py': 'while True:\n    pass\n',
+               'looper_print.py': "n = 0\nwhile True:\n    n += 1\n    if n % 500 == 0:\n        print('tick from module')\n"}
+KINDS = ['spin', 'spin_print', 'swallow_exception', 'swallow_base', 'swallow_base_print', 'block_on_lock', 'writer', 'import_spin', 'import_spin_print']
+
+
+def submission():
+    from pedal.core.submission import Submission
+    files = {'answer.py': BASE}
+    files.update(EXTRA_FILES)
+    return Submission(files=files, main_file='answer.py', main_code=BASE)
 ENTRIES = ['run', 'call', 'evaluate']
 SCHEDULES = ['caller-first', 'student-first', 'student-during-next', 'student-never']
 FOLLOWUPS = [['call-say', 'run-slow'], ['run-print', 'run-slow'], ['evaluate-say', 'call-ask'], ['call-ask', 'run-slow', 'call-say'], ['run-slow', 'run-print'], []]
 LIMITS = [0.1, 0.2]
-REACHES_HANDLER = {'spin', 'spin_print', 'swallow_exception', 'writer'}
+REACHES_HANDLER = {'spin', 'spin_print', 'swallow_exception', 'writer', 'import_spin', 'import_spin_print'}
 
 
 def table(tier):
@@ -138,7 +152,7 @@ def reference_followups(names):
     from pedal.core.report import MAIN_REPORT
     from pedal.sandbox.commands import get_sandbox
     MAIN_REPORT.full_clear()
-    contextualize_report(BASE)
+    contextualize_report(submission())
     sb = get_sandbox()
     sb.run()
     out = [do_followup(sb, n) for n in names]
@@ -161,7 +175,7 @@ def judge(case):
     expected = reference_followups(followups)
 
     MAIN_REPORT.full_clear()
-    contextualize_report(BASE)
+    contextualize_report(submission())
     sb = get_sandbox()
     sb.run()
     main_thread = threading.current_thread()
